@@ -452,10 +452,10 @@ PROPS["C14"] = {
 PROPS["C15"] = {
     "engine_name": "E2-mir-smt",
     "technique": "SMT (z3) path-condition entailment and trace obligations over the MIR of migrate(), copy_records, verify_records, DestinationGuard::publish and one arbitrary iteration of the read-only recovery scan; candidates confirmed by a native migration witness",
-    "level_text": "Reduced claim – the migration's own control and data flow, with the two store instances' insert/flush/recovery taken from the other properties (C02, C03, C04, C08): (i) over every MIR path of migrate(), DestinationGuard::publish is reached only after copy_records, destination.flush, a read-only reopen + verify_records and a re-read of the source's identity stamp, each with an Ok result, and Ok is returned only after publish returned Ok; (ii) in ONE ARBITRARY iteration of copy_records the destination receives this record's key, the value resolved for this record from the SOURCE, its timestamp and its absolute expiry bit-exact, and a refused insert aborts; (iii) in ONE ARBITRARY iteration of verify_records a pair is accepted only when key, timestamp, absolute expiry and resolved value compared equal, and batches of unequal length never reach the pair loop; (iv) publish links with fs::hard_link (never rename/copy), checks the temporary file's stamp first and rolls back on every later error; (v) in ONE ARBITRARY iteration of the recovery scan plus its epilogue, read_only implies no retirement push and no device-writing call, an all-zero legacy marker is skipped only under allow_ambiguous_legacy_recovery, and expiry is not consulted; (vi) both migration stores are configured with enable_ttl = false, no cache, no memory cap, and the source is opened in OpenMode::ReadOnly.",
-    "level_note": E2NOTE + ". NOT decided: file-system semantics (hard_link atomicity, stamps as identity), that the destination store's insert/flush/recovery are correct (claimed under other properties), DestinationGuard::create / Drop cleanup of the temporary file (exercised only by the native witness), the feox-migrate CLI.",
+    "level_text": "Reduced claim – the migration's own control and data flow, with the two store instances' insert/flush/recovery taken from the other properties (C02, C03, C04, C08): (i) over every MIR path of migrate(), DestinationGuard::publish is reached only after copy_records, destination.flush, a read-only reopen + verify_records and a re-read of the source's identity stamp, each with an Ok result, and Ok is returned only after publish returned Ok; (ii) in ONE ARBITRARY iteration of copy_records the destination receives this record's key, the value resolved for this record from the SOURCE, its timestamp and its absolute expiry bit-exact, and a refused insert aborts; (iii) in ONE ARBITRARY iteration of verify_records a pair is accepted only when key, timestamp, absolute expiry and resolved value compared equal, and batches of unequal length never reach the pair loop; (iv) publish links with fs::hard_link (never rename/copy), checks the temporary file's stamp first and rolls back on every later error; (v) in ONE ARBITRARY iteration of the recovery scan plus its epilogue, read_only implies no retirement push and no device-writing call, an all-zero legacy marker is skipped only under allow_ambiguous_legacy_recovery, and expiry is not consulted; (vi) both migration stores are configured with enable_ttl = false, no cache, no memory cap, and the source is opened in OpenMode::ReadOnly; (vii) DestinationGuard::create refuses an existing destination name before creating anything, opens the temporary sibling with create_new only, returns a guard only for a file it created; Drop removes the temporary name only, and the destination name is removed nowhere but in rollback_publication (called from publish only).",
+    "level_note": E2NOTE + ". NOT decided: file-system semantics (hard_link atomicity, stamps as identity), that the destination store's insert/flush/recovery are correct (claimed under other properties), the feox-migrate CLI.",
     "functions": ["src/core/store/migration.rs::migrate", "src/core/store/migration.rs::copy_records", "src/core/store/migration.rs::verify_records",
-                  "src/core/store/migration.rs::DestinationGuard::publish", "src/core/store/migration.rs::migration_config", REC + "::scan_and_rebuild_indexes"],
+                  "src/core/store/migration.rs::DestinationGuard::publish", "src/core/store/migration.rs::DestinationGuard::create", "src/core/store/migration.rs::migration_config", REC + "::scan_and_rebuild_indexes"],
     "smt": "c15",
     "bounds": "every MIR path of migrate and publish (loops unrolled once); one arbitrary iteration of the copy, verify and scan loops (state havocked at the loop header)",
     "stubs": [],
@@ -475,3 +475,30 @@ PROPS["C18"] = {
     "assumptions": ["a lock is released where MIR drops its guard", "locks taken inside non-crate callees are invisible"],
     "outside": "channels, thread joins, TTL sweeper stop/self-join, reader starvation, real schedules",
 }
+
+# round 4: the per-version extent length on the retirement side is part of "v1/v2 files keep their own record format when written to"
+PROPS["C10"]["kani"].append(H(WB, "c05_format_extent_size_agrees", "the retirement path's extent length (format_extent_size) equals the device format's total_size.div_ceil(4096) for v1 AND v2/v3: a retirement on a v1 file marks and frees exactly the retired record's blocks", "3-byte key, all value lengths <= 4 MiB, versions 1..3"))
+PROPS["C10"]["level_text"] += " The retirement side sizes an extent with the DEVICE's record format (v1 headers are 8 bytes shorter), so writing to a v1/v2 file never marks or frees a neighbour's block."
+PROPS["C10"]["functions"].append(WB + "::format_extent_size")
+PROPS["C11"]["level_text"] += " Every site that turns ttl_seconds into an absolute expiry (byte-slice and Bytes insert paths, replace_record_if_current, counter_record, ttl::ttl_expiry) computes min(u64::MAX, ts + ttl*10^9) with both steps saturating, for ALL u64 inputs: very long TTLs never wrap into an early expiry."
+PROPS["C11"]["functions"] += ["src/core/store/operations.rs::insert_with_timestamp_and_ttl_internal", "src/core/store/atomic.rs::replace_record_if_current", "src/core/store/atomic.rs::counter_record", "src/core/store/ttl.rs::ttl_expiry"]
+PROPS["C17"]["level_text"] += " file_is_all_zero – the test that lets a signature-less file be initialised as a blank device – reads sequentially from a fresh handle with remaining = size; in one arbitrary iteration exactly L = min(remaining, buffer) > 0 bytes are read, exactly those are tested, remaining decreases by L; true only at remaining == 0: a file with any non-zero byte is never taken for a blank device."
+PROPS["C17"]["functions"].append(PERSIST + "::file_is_all_zero")
+PROPS["C19"]["level_text"] += " flush_worker_shards: after a failed batch both that batch's retries and the not-yet-attempted rest of the drained shard go back into the shard (no accepted entry leaves the write buffer without having been written)."
+
+# shared obligations (round-4 lesson: a mechanism is checked under every property whose statement depends on it)
+PROPS["C05"]["smt"] = "c05"
+PROPS["C05"]["engine_name"] = "E1-kani + E2-mir-smt"
+PROPS["C05"]["technique"] += "; SMT/trace obligations over the MIR of the paths that move blocks between owners (process_write_batch, process_deletions, recovery's expired-winner pass, flush_all)"
+PROPS["C05"]["level_text"] += " E2 over MIR: process_deletions releases an extent only after a durable marker and a second reader check; process_write_batch publishes a sector only after the device calls succeeded and otherwise goes through failed_batch_outcome; recovery's expired-winner pass releases exactly ceil(total_size/4096) blocks of the removed generation; flush_all persists total_records = record_count and total_size = disk_usage."
+PROPS["C05"]["functions"] += [WB + "::process_deletions", WB + "::process_write_batch", REC + "::remove_expired_recovery_winners", PERSIST + "::flush_all"]
+PROPS["C01"]["level_text"] += " Shared with C07/C11/C12/C14: atomic_increment (one arbitrary retry iteration), update_ttl's closure, the read path's expiry test, one arbitrary iteration of range_query."
+PROPS["C08"]["level_text"] += " Shared with C14/C07: range_query uses the record only under the guard it was loaded under; compare_and_swap compares and caches the value of the generation it was resolved from."
+PROPS["C12"]["level_text"] += " compare_and_swap and atomic_increment take their timestamps from resolve_timestamp / the version clock."
+PROPS["C13"]["level_text"] += " Shared with C07/C11: atomic_increment reserves growth against the current entry; lazy expiry, the sweeper and recovery's expired-winner pass un-count exactly the removed generation."
+PROPS["C14"]["level_text"] += " Expiry filtering (shared with C11): resolve_record_value refuses exactly the generations with 0 < expiry < now when TTL is on."
+PROPS["C14"]["level_note"] = PROPS["C14"]["level_note"].replace(", expiry filtering inside resolve_value_ref", "")
+PROPS["C16"]["level_text"] += " compare_and_swap fills the cache only with (resolved value, generation it was resolved from)."
+PROPS["C20"]["level_text"] += " Shared with C14: in range_query the record reference loaded under the epoch guard is never used after the guard is repinned."
+PROPS["C09"]["level_text"] += " force_flush returns Ok only from a round with no leftover work and an Ok retirement flush."
+
